@@ -24,7 +24,7 @@ PrefixClosed(S) == \A p \in S : Len(p) <= 1 \/ SubSeq(p, 1, Len(p) - 1) \in S
 Sels == {f \in [Inner -> {None} \cup UNION {ChoiceSet(p) : p \in Inner}] : \A p \in Inner : f[p] = None \/ f[p] \in ChoiceSet(p)}
 
 NoSel == [p \in Inner |-> None]
-Blank == [argv |-> << >>, aopt |-> {}, csel |-> NoSel, csec |-> {}, env |-> FALSE, esel |-> NoSel, eopt |-> {}, strict |-> FALSE, dcf |-> FALSE]
+Blank == [argv |-> << >>, aopt |-> {}, csel |-> NoSel, csec |-> {}, env |-> FALSE, esel |-> NoSel, eopt |-> {}, strict |-> FALSE, dcf |-> FALSE, icfg |-> {}]
 \* well-formed choices, built constructively in three steps (so that TLC's workers share the enumeration)
 Secs == {S \in SUBSET Paths : PrefixClosed(S \ {<< >>})}
 SelsIn(S) == {f \in Sels : \A p \in Inner : f[p] # None => (p = << >> \/ p \in S)}               \* an explicit key lives inside its section
@@ -36,7 +36,7 @@ vars == <<in, st>>
 Init == in = Blank /\ st = 0
 Step0 == st = 0 /\ st' = 1 /\ \E av \in Paths, strict \in BOOLEAN :
             /\ (strict => av = << >>)                                          \* parse_object / parse_string have no command line
-            /\ \E ao \in Aopts(av) : in' = [in EXCEPT !.argv = av, !.aopt = IF strict THEN {} ELSE ao, !.strict = strict]
+            /\ \E ao \in Aopts(av), ic \in {{}, 1..Len(av)} : in' = [in EXCEPT !.argv = av, !.aopt = IF strict THEN {} ELSE ao, !.strict = strict, !.icfg = IF strict THEN {} ELSE ic]
 Step1 == st = 1 /\ st' = 2 /\ \E S \in Secs : \E cs \in SelsIn(S) : \E d \in (IF in.strict \/ ~WithDcf THEN {FALSE} ELSE BOOLEAN) :
             in' = [in EXCEPT !.csec = S, !.csel = cs, !.dcf = d]
 Step2 == st = 2 /\ st' = 3 /\ \/ in' = in
@@ -56,7 +56,7 @@ ArgvWins == LET r == Select(T, in) IN (Done /\ ~r.err) => \A j \in 1..Len(in.arg
 TJson == [p \in 1..Cardinality(Paths) |-> LET q == SetToSeq(Paths)[p] IN [path |-> q, req |-> T[q].req, ch |-> T[q].ch]]
 InJson == [argv |-> in.argv, aopt |-> SetToSeq(in.aopt), csel |-> [j \in 1..Cardinality(Inner) |-> <<SetToSeq(Inner)[j], in.csel[SetToSeq(Inner)[j]]>>],
            csec |-> SetToSeq(in.csec), env |-> in.env, esel |-> [j \in 1..Cardinality(Inner) |-> <<SetToSeq(Inner)[j], in.esel[SetToSeq(Inner)[j]]>>],
-           eopt |-> SetToSeq(in.eopt), strict |-> in.strict, dcf |-> in.dcf]
+           eopt |-> SetToSeq(in.eopt), strict |-> in.strict, dcf |-> in.dcf, icfg |-> SetToSeq(in.icfg)]
 ResJson(r) == [err |-> r.err, levels |-> [j \in 1..Len(r.levels) |-> [x |-> r.levels[j].x, chosen |-> r.levels[j].chosen, sections |-> SetToSeq(r.levels[j].sections)]]]
 EmitCase == (Emit /\ Done) => PrintT(ToJson([tree |-> Tree, input |-> InJson, ref |-> ResJson(Select(T, in)), alg |-> ResJson(AlgSelect(T, in)), dev |-> CfgKeyNamesOther(in), dcfdev |-> DcfSubSettings(in)]))
 ASSUME Emit => PrintT(ToJson([treedef |-> Tree, nodes |-> TJson]))
